@@ -96,6 +96,47 @@ def o2(tier):
     return r
 
 
+@guard
+def o3(tier):
+    """the identity checked is the one OpenMLS authenticated for this very message"""
+    ob = Ob('O3', 'dispatch_by_content_type: the credential handed to the author check (and the sender handed to commit validation) are those of the processed MLS message itself, '
+                  'the content stored is that message\'s content, the epoch is the MLS group\'s', pure=C.PURE_MLS)
+    f = ob.fn(CORE, 'process::dispatch_by_content_type')
+    args = [Opaque('self', '&MDK<Storage>'), Opaque('group', 'mdk_storage_traits::groups::types::Group'), Opaque('mls_group', '&mut openmls::group::MlsGroup'),
+            Opaque('bytes', '&[u8]'), Opaque('event', '&nostr::Event')]
+    paths = ob.explore(f, args)
+    n_app = n_commit = 0
+    for p in paths:
+        if p.kind == 'panic':
+            ob.require(False, 'O3/panic', p.msg, p); continue
+        u = lambda v: uid_of(ob.eng, p.st, v)
+        pmm = [e for e in p.trace if ev_is(e, 'process_mls_message')]
+        if not pmm:
+            continue
+        proc = u(pmm[0].ret) + '.Ok.0'
+        cred = [e for e in p.trace if ev_is(e, 'ProcessedMessage::credential')]
+        snd = [e for e in p.trace if ev_is(e, 'ProcessedMessage::sender')]
+        ic = [e for e in p.trace if ev_is(e, 'ProcessedMessage::into_content')]
+        for e in p.trace:
+            if ev_is(e, 'process_application_message'):
+                n_app += 1
+                ok = bool(cred) and u(cred[0].args[0]).startswith(proc) and u(e.args[5]) == u(cred[0].ret) or bool(cred) and u(e.args[5]).startswith('*' + u(cred[0].ret)) or bool(cred) and u(cred[0].ret) in u(e.args[5])
+                ob.require(ok and u(cred[0].args[0]).startswith(proc), 'O3/credential-source',
+                           f'author check receives {u(e.args[5])}, not the credential of the processed MLS message', p)
+                ob.require(bool(ic) and u(ic[0].args[0]).startswith(proc) and u(ic[0].ret) in u(e.args[4]), 'O3/content-source', f'content processed is {u(e.args[4])}', p)
+                ob.require('as_u64' in u(e.args[2]) and 'MlsGroup::epoch' in u(e.args[2]) and 'mls_group' in u(e.args[2]), 'O3/epoch-source', f'epoch recorded is {u(e.args[2])}', p)
+                ob.require(u(e.args[1]) == 'group' and u(e.args[3]) in ('event', '*event'), 'O3/group-event', f'group/event passed: {u(e.args[1])} {u(e.args[3])}', p)
+            if ev_is(e, 'process_commit'):
+                n_commit += 1
+                ob.require(bool(snd) and u(snd[0].args[0]).startswith(proc) and u(snd[0].ret) in u(e.args[4]), 'O3/sender-source',
+                           f'commit validated against sender {u(e.args[4])}, not the sender of the processed MLS message', p)
+                ob.require(bool(ic) and u(ic[0].ret) in u(e.args[3]), 'O3/commit-source', f'staged commit is {u(e.args[3])}', p)
+    ob.require(n_app >= 1 and n_commit >= 1, 'O3/vacuity', f'app {n_app} commit {n_commit}')
+    ob.r.bounds = {'paths': 'all'}
+    ob.r.vacuity.append(f'{len(paths)} paths; {n_app} application, {n_commit} commit dispatches')
+    return ob.done(cases=len(paths))
+
+
 def run(tier, seed, only=None):
-    obs = [('O1', o1), ('O2', o2)]
+    obs = [('O1', o1), ('O2', o2), ('O3', o3)]
     return [f(tier) for k, f in obs if not only or k in only]
